@@ -519,12 +519,15 @@ class WebSocketResponse(StreamResponse, Generic[_DecodeText]):
         self._set_closed()
 
         try:
-            await self._writer.close(code, message)
-            writer = self._payload_writer
-            assert writer is not None
-            if drain:
-                await writer.drain()
-        except (asyncio.CancelledError, asyncio.TimeoutError):
+            # The peer may have stopped reading: sending the CLOSE frame
+            # is bounded by the close timeout as well.
+            async with async_timeout.timeout(self._timeout):
+                await self._writer.close(code, message)
+                writer = self._payload_writer
+                assert writer is not None
+                if drain:
+                    await writer.drain()
+        except asyncio.CancelledError:
             self._set_code_close_transport(WSCloseCode.ABNORMAL_CLOSURE)
             raise
         except Exception as exc:
